@@ -176,6 +176,7 @@ Record CA := mkCA { ca_label : string; ca_inst : nat; ca_kind : akind; ca_create
 Definition is_actions (l : string) : bool := prefix "c2pa.actions" l.
 Definition is_exif (l : string) : bool := String.eqb l "stds.exif".
 Definition is_metadata (l : string) : bool := ends_with ".metadata" l && negb (String.eqb l "c2pa.assertion.metadata").
+Definition is_creative_work (l : string) : bool := String.eqb l "stds.schema-org.CreativeWork".
 
 (* assertion.rs get_mutable_label / Assertion::label: a trailing ".v<digits>" component is split off as the
    version (trim_end_matches removes every trailing repetition) and User / UserCbor assertions are created with
@@ -209,16 +210,19 @@ Definition strip_version (l : string) : string :=
   | None => l
   end.
 
-(* builder.rs to_claim, the label dispatch of the assertion loop (hash/CreativeWork arms are outside the
+(* builder.rs to_claim, the label dispatch of the assertion loop (hash arms are outside the
    generated definitions): label and serialisation kind of the assertion that is added *)
 Definition claim_label (l : string) : string :=
   if is_actions l then "c2pa.actions.v2"
-  else if is_exif l || is_metadata l then l
+  else if is_exif l || is_metadata l || is_creative_work l then l
   else strip_version l.
 Definition claim_kind (a : ADef) : akind :=
   if is_actions (ad_label a) then KCbor
-  else if is_exif (ad_label a) || is_metadata (ad_label a) then KJson
+  else if is_exif (ad_label a) || is_metadata (ad_label a) || is_creative_work (ad_label a) then KJson
   else if ad_json a then KJson else KCbor.
+(* the CreativeWork arm calls claim.add_assertion(&cw): the created flag of the definition is not consulted; every other
+   arm of the generated space passes manifest_assertion.created() *)
+Definition claim_created (a : ADef) : bool := if is_creative_work (ad_label a) then false else ad_created a.
 
 Fixpoint index_from {A} (k : nat) (l : list A) : list (nat * A) :=
   match l with [] => [] | x :: t => (k, x) :: index_from (S k) t end.
@@ -241,7 +245,7 @@ Definition additions (d : Defn) (hash_label : string) : list Add :=
                     ++ [mkAdd "c2pa.ingredient.v3" KCbor false RIngredient (Some (fst it))])
                  (index_from 0 (d_ingredients d)))
   ++ map (fun (it : nat * ADef) =>
-            mkAdd (claim_label (ad_label (snd it))) (claim_kind (snd it)) (ad_created (snd it)) RUser (Some (fst it)))
+            mkAdd (claim_label (ad_label (snd it))) (claim_kind (snd it)) (claim_created (snd it)) RUser (Some (fst it)))
          (index_from 0 (d_assertions d))
   ++ (if negb (has_actions d) && d_auto_actions d then [mkAdd "c2pa.actions.v2" KCbor true RUser None] else [])
   ++ [mkAdd hash_label KCbor true RHash None])%list.
